@@ -16,7 +16,9 @@ Record method := mkMethod { m_name : string; m_sig : sig }.
 Inductive lookup_res :=
 | LNotFound
 | LNotIface (printed : string)      (* obj.Type().String() *)
-| LIface (tparams : list tparam) (methods : list method).
+| LIface (method_set : bool)          (* types.Interface.IsMethodSet(): no type-set terms *)
+         (is_type : bool)             (* the object is a type name (not a var/const of interface type) *)
+         (tparams : list tparam) (methods : list method).
 
 Record input := mkInput {
   in_src : pkg;                             (* the loaded source package *)
@@ -157,7 +159,7 @@ Fixpoint collect (i : input) (cfg : rcfg) (r : registry) (args : list string)
     match assoc name (in_lookup i) with
     | None | Some LNotFound => Err ("interface not found: " ++ name)
     | Some (LNotIface printed) => Err (name ++ " (" ++ printed ++ ") is not an interface")
-    | Some (LIface tps ms) =>
+    | Some (LIface _ _ tps ms) =>
       bind (methods_data cfg r ms) (fun '(r1, rms) =>
       bind (type_params cfg r1 tps) (fun '(r2, tsc) =>
       bind (collect i cfg r2 rest) (fun '(r3, rks) =>
